@@ -366,6 +366,21 @@ func checkMain(args []string) {
 		writeReplay(rp, *prop, c, r, confirmed, detail)
 		violate(rp, !confirmed)
 	}
+	// Known findings that no obligation carries (the defect lies in code or in a whole-run property that no contract
+	// within reach states): identified by their witness alone. The witness is run against the real code; while it
+	// reproduces, the finding is printed; once it no longer does, nothing is printed (it does not suppress anything
+	// either way).
+	for i := range known {
+		kf := &known[i]
+		if kf.Property != *prop || kf.Status != "known" || !strings.HasPrefix(kf.Obligation, "(none") || kf.WitnessTest == "" {
+			continue
+		}
+		if ok, _ := runWitness(*repo, kf); ok {
+			l := fmt.Sprintf("KNOWN-FINDING: property=%s witness-only %s", *prop, kf.What)
+			knownLines = append(knownLines, l)
+			fmt.Println(l)
+		}
+	}
 	// claimed classes that were not generated at all (function left the subset, disappeared, ...)
 	var missing []string
 	for c := range base {
